@@ -228,7 +228,7 @@ def uses_all(rng, g, m, names):
 
 
 def gen_doc(rng, *, stratum: str):
-    """stratum: exact | float | keywords | mixed | srefkw | compkw | initname | digits | gennames | rewrite | gencollide | sparse | nearequal | idcollide | boolnum | boundary | shadow"""
+    """stratum: exact | float | keywords | mixed | srefkw | compkw | initname | digits | gennames | rewrite | gencollide | sparse | nearequal | idcollide | boolnum | boundary | shadow | selfapply"""
     floaty = stratum == "float"
     GM.SMOOTH = stratum == "digits"
     kw = stratum == "keywords"
@@ -312,6 +312,16 @@ def gen_doc(rng, *, stratum: str):
         body = uses_all(rng, g, g.num(2), ps)
         fundefs.append({"id": fid, "params": ps, "body": body})
         funs.append((fid, len(ps)))
+    if stratum == "selfapply":
+        # a function definition applied to its own result: the importer's sympy terms hold unevaluated nestings
+        # (Abs(Abs(k))) that any later substitution re-evaluates (F-C17-15)
+        body = rng.choice([["AST_FUNCTION_ABS", [["AST_DIVIDE", [["ci", "a"], ["AST_PLUS", [["AST_FUNCTION_ABS", [["ci", "a"]]], ["cn", "1"]]]]]]],
+                           ["AST_PLUS", [["AST_FUNCTION_ABS", [["ci", "a"]]], ["cn", "1"]]],
+                           ["AST_FUNCTION_MAX", [["AST_FUNCTION_ABS", [["ci", "a"]]], ["cn", "1/2"]]]])
+        fundefs.append({"id": "selfap", "params": ["a"], "body": body})
+        funs.append(("selfap", 1))
+        params.append(["nest", None])
+        rules.append(["nest", ["call", "selfap", [["call", "selfap", [["ci", rng.choice(const_ps)]]]]]])
     sym = [s["id"] for s in species] + [p for p, _ in params if p not in [r[0] for r in rules]] + [c for c, _ in comps]
     # rule-defined parameters
     rule_ps = []
@@ -1205,7 +1215,7 @@ def judge_doc(ctx, case, R, M, S=None, what="imported model differs from the doc
         # exact only for parameters that carry one of the long literals and are not overridden by an assignment
         assigned = {k for k, _ in case["doc"].get("inits", [])} | {k for k, _ in case["doc"].get("rules", [])}
         exact = set(case.get("raw") or {}) - assigned if case["kind"] == "digits" else ()
-        Rv = snap(R, S, stats, exact_init=exact, tight=case["kind"] not in ("float", "digits", "mixed", "suite"))
+        Rv = snap(R, S, stats, exact_init=exact, tight=case["kind"] not in ("float", "digits", "mixed", "suite", "selfapply"))
     for k, v in stats.items():
         ctx.hist[f"numbers {k}"] = ctx.hist.get(f"numbers {k}", 0) + v
     finding = case["finding"]
@@ -1545,7 +1555,7 @@ def setup(ctx):
 def strata(ctx):
     n = ctx.n(1, 32)
     return [("exact", 110 * n), ("float", 60 * n), ("keywords", 40 * n), ("initname", 15 * n), ("mixed", 15 * n),
-            ("srefkw", 12 * n), ("compkw", 6 * n), ("digits", 12 * n), ("gennames", 24 * n), ("rewrite", 20 * n), ("gencollide", 24 * n), ("sparse", 12 * n), ("nearequal", 24 * n), ("idcollide", 6 * n), ("boolnum", 6 * n), ("boundary", 20 * n), ("shadow", 12 * n)]
+            ("srefkw", 12 * n), ("compkw", 6 * n), ("digits", 12 * n), ("gennames", 24 * n), ("rewrite", 20 * n), ("gencollide", 24 * n), ("sparse", 12 * n), ("nearequal", 24 * n), ("idcollide", 6 * n), ("boolnum", 6 * n), ("boundary", 20 * n), ("shadow", 12 * n), ("selfapply", 9 * n)]
 
 
 #: ids the generated module uses itself: builtins its function bodies call, modules they reach into
